@@ -19,6 +19,7 @@ import (
 	"github.com/bio-routing/bio-rd/routingtable/filter"
 	"github.com/bio-routing/bio-rd/routingtable/locRIB"
 	"github.com/bio-routing/bio-rd/routingtable/vrf"
+	blog "github.com/bio-routing/bio-rd/util/log"
 	"github.com/bio-routing/bio-rd/zzverif/vsched"
 )
 
@@ -149,6 +150,7 @@ type zvWorld struct {
 	dials int
 	lastDialTTL uint8
 	dialFail bool
+	onFSMLog func(peer, oldState, newState, reason string)
 }
 
 func zvNewWorld() *zvWorld {
@@ -280,3 +282,22 @@ func zvFSMState(f *FSM) string {
 
 // zvStop lets all FSM goroutines finish what they can.
 func zvSettle() { vsched.Settle() }
+
+// zvLogger captures the FSM's own state-change log lines (no source hook needed).
+type zvLogger struct{ fields map[string]interface{} }
+
+func (l zvLogger) Errorf(string, ...interface{}) {}
+func (l zvLogger) Infof(string, ...interface{})  {}
+func (l zvLogger) Debugf(string, ...interface{}) {}
+func (l zvLogger) Error(string)                  {}
+func (l zvLogger) Debug(string)                  {}
+func (l zvLogger) Info(msg string) {
+	if msg != "FSM: Neighbor state change" || zvCurWorld == nil || zvCurWorld.onFSMLog == nil {
+		return
+	}
+	zvCurWorld.onFSMLog(fmt.Sprint(l.fields["peer"]), fmt.Sprint(l.fields["last_state"]), fmt.Sprint(l.fields["new_state"]), fmt.Sprint(l.fields["reason"]))
+}
+func (l zvLogger) WithFields(f blog.Fields) blog.LoggerInterface { return zvLogger{fields: f} }
+func (l zvLogger) WithError(error) blog.LoggerInterface         { return l }
+
+func init() { blog.SetLogger(zvLogger{}) }
